@@ -71,7 +71,7 @@ def never_needs(moves) -> bool:
 
 
 class Side:
-    __slots__ = ("backend", "heap", "colmap", "alive", "why", "marker", "datadef", "frames", "tainted")
+    __slots__ = ("backend", "heap", "colmap", "alive", "why", "marker", "datadef", "frames", "tainted", "pool")
 
     def __init__(self, backend):
         self.backend = backend
@@ -83,6 +83,7 @@ class Side:
         self.datadef = True     # data still determined on this side (see section 4)
         self.frames = []        # exported frames per heap index (None if not exported)
         self.tainted = False    # a data failure was already recorded on this side of this behaviour prefix
+        self.pool = None        # C10: expression objects shared along the behaviour (json key -> ColExpr)
 
     def copy(self):
         s = Side(self.backend)
@@ -91,6 +92,7 @@ class Side:
         s.alive, s.why, s.marker, s.datadef = self.alive, self.why, self.marker, self.datadef
         s.frames = list(self.frames)
         s.tainted = self.tainted
+        s.pool = self.pool      # deliberately shared: one python object per specification expression
         return s
 
 
@@ -121,6 +123,7 @@ class Replayer:
                           err_steps=0, skipped_undefined=0, sql_dead=0, missing_ref=0)
         self.failures = []  # dicts
         self.nontrivial = set()
+        self.src_checksum = self.B.checksum() if self.opts.get("immut") else None
 
     # ------------------------------------------------------------------
     def make_root(self, beh):
@@ -140,6 +143,8 @@ class Replayer:
             # identity 999: a reference into an unrelated table (never derivable in any behaviour)
             other = self.B.table(bk, len(self.B.srcs) - 1, name="unrelated")
             s.colmap[999] = other[self.B.srcs[-1]["cols"][0][0]]
+            if self.opts.get("immut"):
+                s.pool = {}
             sides[bk] = s
         return Node(sides)
 
@@ -391,8 +396,14 @@ class Replayer:
         if not side.alive:
             return
         subq = False
+        immut = self.opts.get("immut")
+        if immut:
+            from . import immut as IM
+
+            before_t = [None if t is None else IM.fp_table(t) for t in side.heap]
+            before_e = {key: IM.fp_expr(x) for key, x in side.pool.items()}
         try:
-            res = R.apply_move(m, side.heap, side.colmap)
+            res = R.apply_move(m, side.heap, side.colmap, side.pool)
         except R.MissingRef as e:
             side.alive, side.why = False, f"missing-ref {e}"
             self.stats["missing_ref"] += 1
@@ -435,6 +446,8 @@ class Replayer:
                           tb=traceback.format_exc(limit=-3)[-400:])
                 side.alive, side.why = False, "rejected"
                 return
+        if immut:
+            self.check_immut(node, beh, k, side, m, before_t, before_e)
         if exp_err is not None:
             self.fail(node, beh, k, bk, "errclass", f"specification: {exp_err}, verb call was accepted", expected=exp_err, exc=None)
             self.stats["err_steps"] += 1
@@ -457,6 +470,38 @@ class Replayer:
             side.datadef = False
         self.project_and_compare(node, beh, k, side, res, obs, step)
 
+    def check_immut(self, node, beh, k, side, m, before_t, before_e):
+        """C10: nothing that existed before the call changed; re-running earlier pipelines gives the same result."""
+        from . import immut as IM
+
+        R = self.R
+        bk = side.backend
+        for idx, (t, fp0) in enumerate(zip(side.heap, before_t)):
+            if t is None:
+                continue
+            if IM.fp_table(t) != fp0:
+                self.fail(node, beh, k, bk, "immut-fp", f"table at heap index {idx + 1} (AST or metadata) changed during the call")
+        for key, fp0 in before_e.items():
+            if IM.fp_expr(side.pool[key]) != fp0:
+                self.fail(node, beh, k, bk, "immut-fp", f"expression object passed as an argument earlier was modified: {key[:200]}")
+        # re-export the inputs of this move: same result as when they were first exported
+        for w in ("i", "j"):
+            if w in m and m[w] - 1 < len(side.frames):
+                t, f0 = side.heap[m[w] - 1], side.frames[m[w] - 1]
+                if t is None or f0 is None:
+                    continue
+                try:
+                    f1 = t >> R.export(R.pdt.Polars())
+                    same = list(f1.columns) == list(f0.columns) and CMP.compare_rows(CMP.frame_rows(f0), CMP.frame_rows(f1), None, None) is None
+                    if not same:
+                        self.fail(node, beh, k, bk, "immut-data", f"re-export of input table {m[w]} after later use differs from its first export")
+                    if bk != "polars":
+                        q1, q2 = t >> R.build_query(), t >> R.build_query()
+                        if q1 != q2:
+                            self.fail(node, beh, k, bk, "immut-query", "build_query() twice on one table gave different text")
+                except Exception as e:  # noqa: BLE001
+                    self.fail(node, beh, k, bk, "immut-data", f"re-export of input table {m[w]} raised {exc_class(e)}: {e}")
+
     def retry_with_alias(self, node, beh, k, side, m):
         """C08: inserting alias() directly before the refused verb must make it accepted."""
         R = self.R
@@ -469,7 +514,7 @@ class Replayer:
             try:
                 for w in which:
                     heap2[m[w] - 1] = heap2[m[w] - 1] >> R.alias(keep_col_refs=True)
-                res = R.apply_move(m, heap2, side.colmap)
+                res = R.apply_move(m, heap2, side.colmap, side.pool)
                 side.marker = True
                 self.stats["subq_alias_ok"] += 1
                 return res
@@ -563,6 +608,10 @@ def replay_file(args):
     # event summary
     for key, node in rp.path:
         pass
+    if opts.get("immut"):
+        if rp.B.checksum() != rp.src_checksum:
+            rp.failures.append(dict(clause="immut-source", backend="both", step=0, detail="a source frame / SQL table changed during the replay",
+                                    src=[], srcidx=0, moves=[], heap_obs=[], beh=None, tainted=False))
     rp.stats["wall"] = time.time() - t0
     return rp.stats, rp.failures
 
